@@ -372,3 +372,4 @@ TECHNIQUE = 'finite-domain tabulation of round_fract / round_ratio / rational ro
 LEVEL = LEVEL + ' Also (R10.6) with_precision rounds with the new context unless the old precision is limited and not larger.'
 LEVEL = LEVEL + ' (R10.7) the tiny-value shortcut: split_at_point_internal is reached from rounding callers only where smaller_than_one() is false, so the digit count of the discarded part is never under-estimated.'
 LEVEL = LEVEL + ' (R10.8) inside a `B.is_power_of_two()` branch of the float / rational code every shift amount depends on B.trailing_zeros(): a digit count is never used as a bit count for bases 4, 8, 16, ...'
+TECHNIQUE = TECHNIQUE + '; shift-amount dependence inside power-of-two-base branches'
